@@ -447,7 +447,9 @@ class SceneGraph:
         nodes : (n,) array
           All node names.
         """
-        return self.transforms.nodes
+        # a list rather than the live `dict_keys` view which
+        # would end up in our cache and can't be deep-copied
+        return list(self.transforms.nodes)
 
     @caching.cache_decorator
     def nodes_geometry(self):
